@@ -82,12 +82,16 @@ def advanceGated (w : World) (r : StepResult) : Bool :=
   | _, _, _ => true
 
 /-- **C02.iii** — while `spec.strategy.paused` is set, a reconcile of an InRolling rollout changes
-    nothing but the Progressing reason (unless the workload was rolled back, which is handled first). -/
+    nothing but the Progressing reason, which becomes `Paused` (unless the workload was rolled back, which is
+    handled first). -/
 def pausedNoProgress (w : World) (r : StepResult) : Bool :=
   match w.wl with
   | some wl =>
     if inRollingNow w.ro ∧ w.ro.paused ∧ wl.consistent ∧ ¬ wl.inRollback ∧ ¬ w.ro.disabled then
       r.w.br == w.br && r.w.net == w.net && r.w.wl == w.wl && r.writes.isEmpty &&
+      -- the rollout parks in reason Paused; in particular it does not slip into Finalising (whose tasks
+      -- do not look at `spec.strategy.paused` any more and would promote the remaining pods)
+      r.w.ro.reason == .paused &&
       (match w.ro.sub, r.w.ro.sub with
        | some s, some s' => s'.curIdx == s.curIdx && s'.state == s.state
        | none, none => true
